@@ -413,6 +413,9 @@ class Interp:
             raise Unreached('call depth exceeded at %s' % c.key)
         frame = Frame(c, c.module, c.parent)
         node = c.node
+        if hasattr(self.ctx, 'ex') and not isinstance(node, ast.Lambda) and c.key not in self.ctx.ex.stmt_all and '<locals>' not in c.key:
+            self.ctx.ex.stmt_all[c.key] = sorted({getattr(n, 'lineno', 0) for n in _walk_no_nested(node) if isinstance(n, ast.stmt)
+                                                  and not (isinstance(n, ast.Expr) and isinstance(n.value, ast.Constant))})
         if not isinstance(node, ast.Lambda):
             frame.loop_labels = loop_ordinals(node)
             frame.br_labels = branch_ordinals(node)
@@ -491,6 +494,9 @@ class Interp:
             self.exec(s, frame)
 
     def exec(self, s: ast.stmt, frame: Frame) -> None:
+        cov = self.ctx.ex.stmt_cov if hasattr(self.ctx, 'ex') else None
+        if cov is not None and frame.closure is not None:
+            cov.setdefault(frame.closure.key, set()).add(getattr(s, 'lineno', 0))
         m = getattr(self, 'x_' + type(s).__name__, None)
         if m is None:
             raise Unreached('statement %s at line %d' % (type(s).__name__, getattr(s, 'lineno', 0)))
